@@ -3,7 +3,7 @@ import json
 
 from harness import core, scen, vcommon, world as W
 
-RULE = ("single-step layouts with threshold 1-3 and 2-4 validly signing functionaries whose links agree or differ in "
+RULE = ("layouts of 1-3 steps whose last step has threshold 1-3 and 2-4 validly signing functionaries whose links agree or differ in "
         "one material / product path or hash, mixed with invalid and unauthorised dissenters, every load-order "
         "position of the dissenter; the evaluated artifacts are observed in the returned summary link. Non-trivial: "
         "threshold > 1 or at least one dissenter; distinct by description.")
@@ -30,11 +30,14 @@ def variant(rng, mats, prods):
 
 
 def gen_case(rng, root):
-    ch = scen.gen_chain(rng, root, n_steps=1, n_insp=0, thresholds=(1,), max_funcs=1)
+    # the focus step is the last of 1-3 steps; the earlier ones are ordinary single-functionary steps
+    ch = scen.gen_chain(rng, root, n_steps=rng.choice([1, 1, 2, 3]), n_insp=0, thresholds=(1,), max_funcs=1)
     ch.closed = False
-    step = ch.steps[0]
-    step["rules"] = ([["ALLOW", "*"]], [["ALLOW", "*"]])
-    pool = [k for k in W.pool() if k not in ch.owners]
+    step = ch.steps[-1]
+    for st_ in ch.steps:
+        st_["rules"] = ([["ALLOW", "*"]], [["ALLOW", "*"]])
+    used_before = {k.keyid for st_ in ch.steps[:-1] for k in st_["keys"]}
+    pool = [k for k in W.pool() if k not in ch.owners and k.keyid not in used_before]
     nf = rng.randrange(2, 5)
     funcs = rng.sample(pool, nf)
     stranger = rng.choice([k for k in pool if k not in funcs] or pool)
@@ -63,7 +66,8 @@ def gen_case(rng, root):
     step["keys"] = funcs
     step["links"] = links
     step["threshold"] = thr
-    ch.layout_keys = {k.keyid: k.pub for k in funcs}
+    for k in funcs:
+        ch.layout_keys[k.keyid] = k.pub
     good = [f for f in files if f["good"]]
     groups = {}
     for f in good:
@@ -74,9 +78,11 @@ def gen_case(rng, root):
     return ch, desc
 
 
-def summary_arts(i):
+def summary_arts(i, base_materials=None):
+    """Artifacts evaluated for the focus (= last) step as the summary link shows them: its products; its materials only
+    when it is also the first step."""
     s = json.loads(i["result"]["ok"])
-    return W.canon({"m": s["materials"], "p": s["products"]})
+    return s["materials"], s["products"]
 
 
 def one_case(rng, res):
@@ -90,9 +96,13 @@ def one_case(rng, res):
         res.count("threshold_%d" % desc["threshold"])
         res.count("groups_%s" % desc["agreeing_groups"])
         if vcommon.accepted(i):
-            used = summary_arts(i)
+            sm, sp = summary_arts(i)
             need = max(desc["threshold"], 1)
-            if att.get(used, 0) < need:
+            single = len(ch.steps) == 1
+            # how many good functionaries attested exactly the artifacts that were evaluated
+            n_att = sum(n for arts, n in att.items()
+                        if json.loads(arts)["p"] == sp and (not single or json.loads(arts)["m"] == sm))
+            if n_att < need:
                 vcommon.oracle_fail(res, scn, desc, "accepted, but the artifacts evaluated (summary link) are not attested "
                                     "identically by at least `threshold` distinct authorised functionaries with valid signatures", i)
     finally:
